@@ -243,7 +243,13 @@ func (m *evalModel) isFrameAnns(v ssa.Value) bool {
 			}
 		}
 		p, ok := v.(*ssa.Parameter)
-		if !ok || curCtx == nil || p.Parent() == m.E || !curCtx.transparent(p.Parent()) {
+		if !ok || curCtx == nil || p.Parent() == m.E {
+			return false
+		}
+		// (the methods of the record are role anchors, not transparent helpers; their receiver is still what the callers pass)
+		isRecordMethod := p.Parent().Signature.Recv() != nil && len(p.Parent().Params) > 0 && p.Parent().Params[0] == p &&
+			curCtx.isPkgNamed(p.Type(), "annotations") && curCtx.P.OnlyStaticCallers(p.Parent())
+		if !curCtx.transparent(p.Parent()) && !isRecordMethod {
 			return false
 		}
 		args := curCtx.P.ArgsFor(p)
@@ -1467,7 +1473,18 @@ func (c *Ctx) yieldCallsOf(body *ssa.Function) []*ssa.Call {
 		}
 		for _, f := range core.WithAnon(g) {
 			core.EachInstr(f, func(i ssa.Instruction) {
-				if yc, ok := i.(*ssa.Call); ok && !yc.Call.IsInvoke() && yc.Call.Value == ssa.Value(g.Params[0]) {
+				yc, ok := i.(*ssa.Call)
+				if !ok || yc.Call.IsInvoke() {
+					return
+				}
+				isYield := yc.Call.Value == ssa.Value(g.Params[0])
+				// inside a nested loop body the yield function is a captured variable
+				for _, ys := range traceSources(yc.Call.Value) {
+					if ys == ssa.Value(g.Params[0]) {
+						isYield = true
+					}
+				}
+				if isYield {
 					out = append(out, yc)
 				}
 			})
